@@ -72,7 +72,7 @@ def run_one(adapter, case, stats):
 
 
 def run_chunk(args):
-    prop, seed, tier, start, end, chunk_timeout = args
+    prop, seed, tier, start, end, chunk_timeout, double = args
     faulthandler.dump_traceback_later(chunk_timeout, exit=True)
     try:
         adapter = SimAdapter(_SIM, _KNOWN)
@@ -98,6 +98,16 @@ def run_chunk(args):
             case = _SIM.generate(seed, run, tier)
             stats = Stats()
             v = run_one(adapter, case, stats)
+            if double:
+                # same explicit case again in this (now warmed-up) process: the
+                # event log and the verdict must not depend on what ran before
+                again = _SIM.generate(seed, run, tier)
+                if canon(again) != canon(case):
+                    raise HarnessError("generation of run %d is not a function of (seed, run)" % run)
+                stats2 = Stats()
+                v2 = run_one(adapter, again, stats2)
+                if stats2.digest() != stats.digest() or (v is None) != (v2 is None):
+                    raise HarnessError("run %d diverged when executed twice in one process" % run)
             out["runs"] += 1
             out["steps"] += stats.steps
             out["checks"] += stats.checks
@@ -228,7 +238,7 @@ def do_check(prop, sim, known, args):
                 regressions.append((-1, case, v.record(prop), v.klass()))
                 print("regression: %s fails again" % name)
 
-    chunks = [(prop, seed, tier, s, min(s + chunk, total_runs), chunk_timeout) for s in range(0, total_runs, chunk)]
+    chunks = [(prop, seed, tier, s, min(s + chunk, total_runs), chunk_timeout, args.double) for s in range(0, total_runs, chunk)]
     agg = {
         "runs": 0, "steps": 0, "checks": 0, "events": 0, "fault_runs": 0,
         "faults": {}, "probes": {}, "known": {},
@@ -425,6 +435,10 @@ def main(argv=None):
     argv = sys.argv[1:] if argv is None else argv
     if argv and argv[0] == "setup":
         return do_setup()
+    if argv and argv[0] == "selftest":
+        from sim import selftest
+
+        return selftest.main(argv[1:])
     ap = argparse.ArgumentParser(prog="check")
     ap.add_argument("property", choices=CLAIMED)
     ap.add_argument("--tier", default=os.environ.get("VERIF_TIER", "quick"), choices=["quick", "thorough"])
@@ -437,6 +451,7 @@ def main(argv=None):
     ap.add_argument("--expect-exact", action="store_true")
     ap.add_argument("--evidence-dir", default=None)
     ap.add_argument("--no-minimise", action="store_true")
+    ap.add_argument("--double", action="store_true", help="execute every run twice in-process and compare event logs")
     ap.add_argument("--minimise-s", type=float, default=60.0)
     args = ap.parse_args(argv)
     args.repo = os.path.abspath(args.repo)
